@@ -46,8 +46,18 @@ def run_config(cfg):
         if cfg.get('lock_in_context'):
             # a context value that can be neither copied nor pickled, and is compared by identity (serial and fork only)
             ctx['handle'] = threading.Lock()
+        given = dict(ctx)
+        if cfg.get('lazy_context'):
+            # the Lab's context is a dict subclass that computes missing entries; a task type without a filter of its own sees it as it is
+            given = U.LazyContext(ctx)
+            os.environ['LV_LAZY_CONTEXT'] = '1'
+        if cfg.get('fill_later'):
+            # the caller hands over an (empty) dict and fills it before the first run_tasks call: it is the Lab's context
+            given = {}
         lab = Lab(storage=os.path.join(d, 'store'), runner_backend=cfg['backend'], max_workers=cfg['max_workers'],
-                  context=dict(ctx), notebook=False)
+                  context=given, notebook=False)
+        if cfg.get('fill_later'):
+            given.update(ctx)
         leaves = [U.TCtxNone(label=i) if cfg['filter'] == 'none' else ((U.TCtx if i % 2 == 0 else U.TCtxI)(label=i) if cfg['filter'] else U.Ta(label=i))
                   for i in range(cfg['n'])]
         tops = [U.Tab(label=100 + i, deps=(leaves[i], leaves[(i + 1) % cfg['n']]), reads=(0, 1)) for i in range(cfg['n'])]
@@ -102,6 +112,7 @@ def run_config(cfg):
         if helper is not None:
             helper.join(5)
         os.environ.pop('LV_RECDIR', None)
+        os.environ.pop('LV_LAZY_CONTEXT', None)
         U.PARENT_MARKER = 'import-time'
         shutil.rmtree(d, ignore_errors=True)
 
@@ -130,6 +141,10 @@ def run(prop, report, tier, seed, replay=None):
             cfgs.append(dict(backend=b, max_workers=2, filter='none', n=2, context={'a': 1, 'k0': 'x'}, helper_thread=False, rerun=False))
         for b in ('serial', 'fork'):
             cfgs.append(dict(backend=b, max_workers=2, filter=False, n=2, context={'a': 1}, lock_in_context=True, helper_thread=False, rerun=False))
+        for b in ('serial', 'fork'):
+            cfgs.append(dict(backend=b, max_workers=2, filter=False, n=2, context={'a': 1, 'k0': 'x'}, fill_later=True, helper_thread=False, rerun=False))
+            cfgs.append(dict(backend=b, max_workers=2, filter=True, n=2, context={'a': 1, 'k0': 'x', 'k1': [1]}, fill_later=True, helper_thread=False, rerun=False))
+            cfgs.append(dict(backend=b, max_workers=2, filter=False, n=2, context={'a': 1}, lazy_context=True, helper_thread=False, rerun=False))
         # the context of one Lab object changes between two runs: rebound to another dict, or updated in place
         for b, how, filt in (('serial', 'rebind', True), ('fork', 'rebind', False), ('fork', 'inplace', True), ('serial', 'inplace', False)) + \
                 ((('spawn', 'rebind', True),) if tier == 'thorough' else ()):
@@ -160,6 +175,11 @@ def run(prop, report, tier, seed, replay=None):
                 report.violation('C16:shared-worker-process', 'two tasks ran in the same worker process', dict(config=cfg))
             if any(r['ppid'] != caller_pid for r in starts):
                 report.violation('C16:not-a-child', 'a worker is not a child of the calling process', dict(config=cfg))
+        if cfg.get('lazy_context'):
+            lazy_bad = [r for r in starts if r.get('lazy') != 'lazy:__not_held_yet__']
+            if lazy_bad:
+                report.violation('C16:wrong-context', f"the Lab's context computes entries it does not hold; task {lazy_bad[0]['label']} (no filter of its own) looked one up in its "
+                                                      f"context and got {lazy_bad[0].get('lazy')!r}: what it was handed is not the Lab's context", dict(config=cfg))
         for r in starts:
             if r['context'] != out['want_ctx'][r['label']]:
                 report.violation('C16:wrong-context', f"task {r['label']} saw context {r['context']} instead of its filter_context of the Lab context {out['want_ctx'][r['label']]}", dict(config=cfg))
